@@ -1408,6 +1408,268 @@ def translate_decoders(bodies, codes):
     return text, missing
 
 
+# ---------------------------------------------------------------- frame decoder (src/frame.rs): from_usart_frame after the COBS decoding
+
+TOK2 = re.compile(r"\s*(?:(//[^\n]*)|(0x[0-9a-fA-F]+|\d+)|([A-Za-z_][A-Za-z_0-9]*(?:::[A-Za-z_][A-Za-z_0-9]*)*)|(=>|\+=|!=|==|>=|<=|&&|\|\||<<|>>|[-+!<>(){};:,.=\[\]&*?|]))")
+
+
+def tokenize2(src):
+    out, i = [], 0
+    src = src.rstrip()
+    while i < len(src):
+        m = TOK2.match(src, i)
+        if not m:
+            if src[i:].strip() == "":
+                break
+            raise Untranslatable("token at %r" % src[i:i + 20])
+        i = m.end()
+        if m.group(1):
+            continue
+        out.append(m.group(2) or m.group(3) or m.group(4))
+    return out
+
+
+class BitParser(Parser):
+    """the expression grammar with Rust's bit operators: comparison < `|` < `&` < shifts < additive < cast < unary"""
+
+    def comparison(self, nostruct=False):
+        a = self.bitor(nostruct)
+        if self.peek() in ("!=", "==", ">=", "<=", ">", "<"):
+            op = self.eat()
+            return ("cmp", op, a, self.bitor(nostruct))
+        return a
+
+    def bitor(self, nostruct):
+        a = self.bitand(nostruct)
+        while self.peek() == "|":
+            self.eat()
+            a = ("bit", "|", a, self.bitand(nostruct))
+        return a
+
+    def bitand(self, nostruct):
+        a = self.shift(nostruct)
+        while self.peek() == "&":
+            self.eat()
+            a = ("bit", "&", a, self.shift(nostruct))
+        return a
+
+    def shift(self, nostruct):
+        a = self.additive(nostruct)
+        while self.peek() in ("<<", ">>"):
+            op = self.eat()
+            a = ("bit", op, a, self.additive(nostruct))
+        return a
+
+
+WIDTH = {"u8": 256, "u16": 65536}
+FERR = {"FrameError::WrongSize": ".wrongSize", "FrameError::CobsError": ".cobsError", "FrameError::FrameIdMissing": ".frameIdMissing",
+        "FrameError::FrameIsRemote": ".frameIsRemote", "FrameError::FrameIsStandard": ".frameIsStandard"}
+
+
+class FrameTranslator:
+    """translates what `Frame::from_usart_frame` does with the COBS-decoded bytes `frame` (`fr : List UInt8`). Unsigned values are
+    `Nat` terms with their Rust type; `frame[k]` is the panicking read `Prim.idxF`; `<<` on `u8` / `u16` drops the bits shifted out
+    (`% 256`, `% 65536`); `as` to a wider type is the identity; `||` / `&&` evaluate their right operand only when needed (it may
+    panic); the array fill loop is the primitive `Prim.fill8`."""
+
+    def __init__(self):
+        self.n = 0
+
+    def num(self, e, env, k):
+        """evaluate a numeric or boolean expression; k(term, type) continues"""
+        t = e[0]
+        if t == "num":
+            return k(str(e[1]), "int")
+        if t == "index" and e[1] == ("path", ["frame"]) and e[2][0] == "num":
+            self.n += 1
+            v = "x%d" % self.n
+            return "(Prim.idxF fr %d).bind fun %s =>\n%s" % (e[2][1], v, k("%s.toNat" % v, "u8"))
+        if t == "path":
+            p = e[1]
+            if len(p) == 1 and p[0] in env:
+                return k(*env[p[0]])
+            if p in (["true"], ["false"]):
+                return k(p[0], "bool")
+            raise Untranslatable("path " + ".".join(p))
+        if t == "call" and e[1] == ("path", ["frame", "len"]) and not e[2]:
+            return k("fr.length", "usize")
+        if t == "as":
+            def k1(a, ta):
+                if ta == "bool":
+                    raise Untranslatable("cast of a bool")
+                if e[1] in ("u16", "usize", "u32") and ta in ("u8", "u16", "usize", "int"):
+                    if e[1] == "u16" and ta == "usize":
+                        return k("(%s %% 65536)" % a, "u16")
+                    return k(a, e[1])
+                if e[1] == "u8" and ta in ("u16", "usize", "u32", "u8", "int"):
+                    return k(a if ta == "u8" else "(%s %% 256)" % a, "u8")
+                raise Untranslatable("cast %s as %s" % (ta, e[1]))
+            return self.num(e[2], env, k1)
+        if t == "not":
+            return self.num(e[1], env, lambda a, ta: k("(!%s)" % a, "bool") if ta == "bool" else (_ for _ in ()).throw(Untranslatable("! on " + ta)))
+        if t in ("bit", "arith", "cmp"):
+            op = e[1]
+
+            def k1(a, ta):
+                def k2(b, tb):
+                    ty = tb if ta == "int" else ta
+                    if t == "cmp":
+                        if ta != tb and "int" not in (ta, tb):
+                            raise Untranslatable("comparison of %s and %s" % (ta, tb))
+                        if ty == "bool":
+                            raise Untranslatable("comparison of bools")
+                        return k({"==": "(%s == %s)", "!=": "(%s != %s)", "<": "decide (%s < %s)", ">": "decide (%s > %s)", "<=": "decide (%s ≤ %s)", ">=": "decide (%s ≥ %s)"}[op] % (a, b), "bool")
+                    if ty in ("bool", "int") and not (ta == tb == "int"):
+                        raise Untranslatable("%s on %s, %s" % (op, ta, tb))
+                    if op in ("<<", ">>"):
+                        if tb != "int":
+                            raise Untranslatable("shift by a non-literal")
+                        ty = ta
+                        if op == ">>":
+                            return k("(%s >>> %s)" % (a, b), ty)
+                        return k("((%s <<< %s) %% %d)" % (a, b, WIDTH[ty]) if ty in WIDTH else "(%s <<< %s)" % (a, b), ty)
+                    if ta != tb and "int" not in (ta, tb):
+                        raise Untranslatable("%s on %s, %s" % (op, ta, tb))
+                    if op == "&":
+                        return k("(%s &&& %s)" % (a, b), ty)
+                    if op == "|":
+                        return k("(%s ||| %s)" % (a, b), ty)
+                    if op == "+" and ty in ("usize", "int"):
+                        return k("(%s + %s)" % (a, b), ty)
+                    raise Untranslatable("%s on %s" % (op, ty))
+                return self.num(e[3], env, k2)
+            return self.num(e[2], env, k1)
+        raise Untranslatable("expression " + t)
+
+    def cond(self, e, env, kt, kf, ind):
+        """a condition with short-circuit connectives; kt() / kf() give the text of the branches"""
+        if e[0] == "bool" and e[1] == "||":
+            return self.cond(e[2], env, kt, lambda: self.cond(e[3], env, kt, kf, ind), ind)
+        if e[0] == "bool" and e[1] == "&&":
+            return self.cond(e[2], env, lambda: self.cond(e[3], env, kt, kf, ind), kf, ind)
+
+        def k(t, ty):
+            if ty != "bool":
+                raise Untranslatable("condition of type " + ty)
+            return "%sif %s then\n%s\n%selse\n%s" % (ind, t, kt(), ind, kf())
+        return ind + self.num(e, env, k).lstrip()
+
+    def err(self, e):
+        if e[0] == "call" and e[1] == ("path", ["Err"]) and len(e[2]) == 1 and e[2][0][0] == "path" and e[2][0][1][0] in FERR:
+            return FERR[e[2][0][1][0]]
+        raise Untranslatable("error value")
+
+    def stmts(self, ss, env, ind):
+        if not ss:
+            raise Untranslatable("fell off the end")
+        s, rest = ss[0], ss[1:]
+        if s[0] == "if" and s[1][0] == "cond" and s[3] is None and len(s[2]) == 1 and s[2][0][0] == "return":
+            er = self.err(s[2][0][1])
+            return self.cond(s[1][1], env, lambda: "%s  .err %s" % (ind, er), lambda: self.stmts(rest, env, ind), ind)
+        if s[0] == "let":
+            e = s[2]
+            if e[0] == "call" and e[1] == ("path", ["__fill8"]) and len(e[2]) == 2 and e[2][0][0] == "num":
+                def kf(n, tn):
+                    if tn not in ("u8", "usize"):
+                        raise Untranslatable("fill loop over a length of type " + tn)
+                    env2 = dict(env)
+                    env2[s[1]] = (s[1], "array8")
+                    return "(Prim.fill8 fr %d %s).bind fun %s =>\n%s" % (e[2][0][1], n, s[1], self.stmts(rest, env2, ind))
+                return ind + self.num(e[2][1], env, kf).lstrip()
+
+            def k(t, ty):
+                env2 = dict(env)
+                env2[s[1]] = (s[1], ty)
+                return "%slet %s := %s\n%s" % (ind, s[1], t, self.stmts(rest, env2, ind))
+            return ind + self.num(e, env, k).lstrip()
+        if s[0] == "letif" and s[2][0] == "cond":
+            _, name, c, then, els = s
+            if not (len(then) == 1 and then[0][0] == "tail" and len(els) == 1 and els[0][0] == "tail"):
+                raise Untranslatable("let … = if")
+            ctors = []
+            for b in (then, els):
+                e = b[0][1]
+                if not (e[0] == "call" and e[1][0] == "path" and e[1][1][0] in ("FrameId::LastFrameId", "FrameId::CurrentFrameId") and len(e[2]) == 1):
+                    raise Untranslatable("frame id constructor")
+                ctors.append((e[1][1][0].endswith("LastFrameId"), e[2][0]))
+            if ctors[0][0] == ctors[1][0]:
+                raise Untranslatable("both branches build the same kind of frame id")
+
+            def kc(ct, cty):
+                if cty != "bool":
+                    raise Untranslatable("condition")
+
+                def k1(a, ta):
+                    def k2(b, tb):
+                        if ta != "u16" or tb != "u16":
+                            raise Untranslatable("frame id of type %s / %s" % (ta, tb))
+                        env2 = dict(env)
+                        env2[name] = (name, "frameid")
+                        last = ct if ctors[0][0] else "(!%s)" % ct
+                        return "%slet %s_last := %s\n%slet %s := if %s then %s else %s\n%s" % (ind, name, last, ind, name, ct, a, b, self.stmts(rest, env2, ind))
+                    return self.num(ctors[1][1], env, k2)
+                return self.num(ctors[0][1], env, k1)
+            return ind + self.num(c[1], env, kc).lstrip()
+        if s[0] in ("tail", "return") and not rest:
+            e = s[1]
+            if e[0] == "call" and e[1] == ("path", ["Ok"]) and len(e[2]) == 1 and e[2][0][0] == "struct" and e[2][0][1] in ("Frame", "Self"):
+                f = dict(e[2][0][2])
+                if sorted(f) != ["data", "data_len", "device_address", "frame_id", "multi_frame_flag", "not_error_flag", "start_frame_flag"]:
+                    raise Untranslatable("fields of the frame")
+
+                def var(name, want):
+                    v = f[name]
+                    if not (v[0] == "path" and len(v[1]) == 1 and v[1][0] in env and env[v[1][0]][1] in want):
+                        raise Untranslatable("field " + name)
+                    return env[v[1][0]][0]
+                fid = var("frame_id", ("frameid",))
+                return ("%s.ok { notError := %s, start := %s, multi := %s, idLast := %s_last, fid := %s, addr := UInt16.ofNat %s, dataLen := %s, data := %s }"
+                        % (ind, var("not_error_flag", ("bool",)), var("start_frame_flag", ("bool",)), var("multi_frame_flag", ("bool",)), fid, fid,
+                           var("device_address", ("u16",)), var("data_len", ("u8",)), var("data", ("array8",))))
+        raise Untranslatable("statement " + s[0])
+
+
+def translate_frame(src):
+    """returns (lean text of Generated/FrameFns.lean, [names not translated])"""
+    missing = []
+    sig = "(fr : List UInt8) : Res FErr Frame"
+    try:
+        m = re.search(r"pub fn from_usart_frame\s*\(\s*encoded:\s*Vec<u8>\s*\)\s*->\s*Result<Self,\s*FrameError>\s*\{", src)
+        if not m:
+            raise Untranslatable("signature")
+        i, depth = m.end() - 1, 0
+        for j in range(i, len(src)):
+            depth += src[j] == "{"
+            depth -= src[j] == "}"
+            if depth == 0:
+                break
+        body = re.sub(r"//[^\n]*", "", src[i + 1:j])
+        k = body.find("if frame.len()")
+        if k < 0:
+            raise Untranslatable("no size test on the decoded bytes")
+        pre, seg = body[:k], body[k:]
+        if not (re.search(r"CobsDecoder::new\(&mut frame\[\.\.\]\)", pre) and re.search(r"frame\.truncate\(n\)", pre)) or "encoded" in seg or "decoder" in seg:
+            raise Untranslatable("the COBS part is not the recognised one")
+        seg = re.sub(r"let\s+mut\s+(\w+)\s*=\s*\[0u8;\s*8\];\s*for\s+(\w+)\s+in\s+0\.\.\(?(\w+)\s+as\s+usize\)?\s*\{\s*\1\[\2\]\s*=\s*frame\[\2\s*\+\s*(\d+)\];\s*\}",
+                     lambda mm: "let %s = __fill8(%s, %s);" % (mm.group(1), mm.group(4), mm.group(3)), seg)
+        text = FrameTranslator().stmts(BitParser(tokenize2("{" + seg + "}")).block(), {}, "  ")
+        text = "\n".join(l if l.startswith(" ") else "  " + l for l in text.split("\n"))
+        out = ("/-- what `Frame::from_usart_frame` does with the COBS-decoded bytes (`frame` is `fr`): translated from src/frame.rs -/\n"
+               "def fromUsartBody %s :=\n%s\n" % (sig, text))
+    except (Untranslatable, KeyError, TypeError, IndexError) as ex:
+        missing.append("from_usart_frame")
+        out = ("/-- the part of `Frame::from_usart_frame` after the COBS decoding could not be translated on this run (%s): this is the hand-written model's -/\n"
+               "def fromUsartBody %s :=\n  fromUsartModelBody fr\n" % (str(ex).replace("-/", ""), sig))
+    text = ("import RossModel.Spec.SrcPrims\n"
+            "/-! GENERATED by bin/extract (bin/rust2lean.py) from src/frame.rs of the repository under verification — do not edit.\n"
+            "Every run of a check regenerates this file from /repo's working tree before building the theorems. -/\n"
+            "namespace Ross.Src\nopen Ross\n\n" + out +
+            "\n/-- `Frame::from_usart_frame`: the COBS decoding (the model's `Cobs.decodeBody`, tied by the correspondence check), then the translated part -/\n"
+            "def fromUsart (enc : List UInt8) : Res FErr Frame :=\n  match Cobs.decodeBody enc with\n  | none => .err .cobsError\n  | some fr => fromUsartBody fr\n"
+            "\n/-- not translated on this run -/\ndef frameNotTranslated : List String := [" + ", ".join('"%s"' % x for x in missing) + "]\n\nend Ross.Src\n")
+    return text, missing
+
+
 if __name__ == "__main__":
     import sys
     src = open(sys.argv[1] if len(sys.argv) > 1 else "/repo/src/packet.rs").read()
